@@ -5,6 +5,10 @@
 //
 //	(i)   @page cascade: every sequence of <= 3 (thorough 4) distinct rules of a 13 rule menu
 //	      (after a fixed base rule) x 10 documents of 1-5 forced pages with named pages;
+//	      second generation: a 46 rule menu of :nth(An+B) selectors (A negative / zero / positive,
+//	      B below, at and inside the page range, other spellings) alone and before/after every
+//	      rule of the first menu (thorough: pairs of :nth rules, and every position in every
+//	      ordered pair of first menu rules) x 2 documents of 7 and 8 pages (nth.go);
 //	(ib)  page box dimensions: width/height x auto/length/percentage margins x padding and
 //	      border on each side separately (so that the two sides of an axis differ) x min/max
 //	      constraints;
@@ -14,11 +18,14 @@
 //	      and of the page-level menu (border/padding of the PAGE box, one-sided / mixed /
 //	      all different / symmetric);
 //	(iii) counter(page)/counter(pages) in a margin box on every case of (ii), in each of the 16
-//	      margin boxes, and with page-context resets/increments.
+//	      margin boxes, and with page-context resets/increments; second generation: two margin
+//	      boxes per page, one manipulating page / pages (increment, reset, set), the other showing
+//	      the counters, every ordered pair of the 16 boxes x 3 page contexts.
 package c12
 
 import (
 	"fmt"
+	"os"
 	"strconv"
 	"strings"
 
@@ -196,15 +203,32 @@ func (c *check) Init(tier string, seed int64) engine.Space {
 			nFlow += int64(len(c.heights)) * countSets(ch, 3)
 		}
 	}
+	// development knob: C12_ONLY=cascade,nth,pagebox,counters,flow keeps the units of the named
+	// families only (never set by bin/check or the evidence runs)
+	var only []string
+	if v := os.Getenv("C12_ONLY"); v != "" {
+		only = strings.Split(v, ",")
+		names := map[int]string{famCascade: "cascade", famNth: "nth", famPageBox: "pagebox", famCounters: "counters", famFlow: "flow"}
+		var keep []unit
+		for _, u := range c.units {
+			for _, o := range only {
+				if names[u.fam] == o {
+					keep = append(keep, u)
+				}
+			}
+		}
+		c.units = keep
+	}
 	chunk := int64(4)
 	return engine.Space{
 		Units: int64(len(c.units)), Chunk: chunk, Level: "model_checking", CaseCPUs: 5,
 		Rule: "deviation-bounded product, simplest first: (i) every sequence of distinct @page rules up to the bound x every forced-page document; (ib) the product of page box width/height/margin/padding (each side)/border (each side)/min/max choices; (iii) every margin box name and page-context counter manipulation; (ii) per flow shape and page content height: the default flow, then every single deviation of the per-box menu and of the page-level menu (border/padding of the page box on one side, on opposite sides, all different, symmetric; the sheet grows so that the content box is unchanged), then every pair (then triples) of deviations in distinct slots. One case = one document laid out by layout.Layout and compared with the reference. A case is non-trivial when the reference pagination has >= 2 pages (flows) or the rule sequence/choice changes the geometry of at least one page (cascade, page box)",
 		Bounds: map[string]any{
-			"cascade_rule_menu": ruleTexts(), "cascade_max_rules": maxLen, "cascade_docs": cascadeDocs, "cascade_cases": nCascade,
+			"restricted_to_families(C12_ONLY)": only,
+			"cascade_rule_menu":                ruleTexts(), "cascade_max_rules": maxLen, "cascade_docs": cascadeDocs, "cascade_cases": nCascade,
 			"cascade_nth_menu": nthTexts(), "cascade_nth_docs": nthDocs, "cascade_nth_cases": nNth,
 			"cascade_nth_sequences": map[bool]string{false: "[x]; [x r], [r x] (x: a rule of the :nth menu, r: a rule of the first menu)", true: "[x]; [x r], [r x]; [x y] (ordered pairs of distinct :nth rules); [x r s], [r x s], [r s x] (ordered pairs of distinct rules of the first menu)"}[thorough],
-			"pagebox_cases": c.pbCases, "counter_cases": c.cntCases,
+			"pagebox_cases":         c.pbCases, "counter_cases": c.cntCases,
 			"flow_shapes_level1": c.shapes, "flow_shapes_level2": l2, "flow_shapes_level3": map[bool][]string{true: shapesThoroughL3, false: nil}[thorough],
 			"flow_heights_px": c.heights, "flow_cases": nFlow,
 			"per_box_menu":           "break-before/after {avoid,page,left,right,recto,verso}, break-inside avoid, orphans {2,3}, widows {2,3}, padding 3px, border 3px, page n (thorough: m), counter-reset page 5",
@@ -1112,6 +1136,7 @@ func runPageBox(ctx *engine.Ctx, pc pbCase) {
 
 type counterCase struct {
 	at     string
+	also   string // second generation: another margin box of the same page, which manipulates the counters
 	extra  string // extra css
 	body   string
 	expect func(i, n int) []string // acceptable texts of page i (0 based) of n
@@ -1154,7 +1179,61 @@ func counterCases() []counterCase {
 		counterCase{at: "@top-center", extra: "@page{counter-increment:page 2}", body: bodies[0], expect: func(i, n int) []string { return []string{fmt.Sprintf("%d/%d", 2*(i+1), n)} }, feats: []string{"counters", "page-context-counter-increment"}},
 		counterCase{at: "@bottom-center", extra: "@page{counter-increment:page 1 pages 3}", body: bodies[0], expect: plain, feats: []string{"counters", "pages-in-counter-increment"}},
 	)
+	out = append(out, counterPairCases(bodies)...)
 	return out
+}
+
+// second generation of family (iii): TWO margin boxes on every page. One (the "manipulator")
+// declares counter-increment / counter-reset / counter-set on page or pages and shows the
+// counters; the other one only shows counter(page) "/" counter(pages) and must show the page's
+// position and the total whatever the first one does: every ordered pair of the 16 margin boxes
+// (so both generation orders of every pair: top, bottom, left, right, then the corners), x 4
+// manipulations x 3 page contexts (plain; blank pages; counter-increment:page 2 in the page
+// context, where the position counts in steps of 2).
+var counterManips = []struct{ css, tag string }{
+	{"counter-increment:page", "margin-box-counter-increment-page"},
+	{"counter-reset:page 7", "margin-box-counter-reset-page"},
+	{"counter-set:page 9", "margin-box-counter-set-page"},
+	{"counter-increment:pages 3", "margin-box-counter-increment-pages"},
+}
+
+func counterPairCases(bodies []string) []counterCase {
+	plain := func(i, n int) []string { return []string{fmt.Sprintf("%d/%d", i+1, n)} }
+	twice := func(i, n int) []string { return []string{fmt.Sprintf("%d/%d", 2*(i+1), n)} }
+	contexts := []struct {
+		extra, body, tag string
+		expect           func(i, n int) []string
+	}{
+		{"", bodies[0], "", plain},
+		{"", bodies[1], "blank-pages", plain},
+		{"@page{counter-increment:page 2}", bodies[0], "page-context-counter-increment", twice},
+	}
+	var out []counterCase
+	for _, cx := range contexts {
+		for _, m := range counterManips {
+			for _, also := range marginBoxNames {
+				for _, at := range marginBoxNames {
+					if at == also {
+						continue
+					}
+					feats := []string{"counters", "two-margin-boxes", m.tag}
+					if cx.tag != "" {
+						feats = append(feats, cx.tag)
+					}
+					out = append(out, counterCase{at: at, also: also, body: cx.body, expect: cx.expect, feats: feats,
+						extra: cx.extra + "@page{" + also + "{" + m.css + `;content:counter(page) "/" counter(pages)}}`})
+				}
+			}
+		}
+	}
+	return out
+}
+
+func (cc counterCase) describe() string {
+	if cc.also != "" {
+		return cc.at + " shows the counters, " + cc.extra
+	}
+	return cc.at + " shows the counters " + cc.extra
 }
 
 func runCounterCase(ctx *engine.Ctx, cc counterCase) {
@@ -1178,6 +1257,9 @@ func runCounterCase(ctx *engine.Ctx, cc counterCase) {
 	for i, p := range ops {
 		got := p.margin[cc.at]
 		key.WriteString(got + " ")
+		if cc.also != "" {
+			key.WriteString("(" + p.margin[cc.also] + ") ")
+		}
 		acc := cc.expect(i, len(ops))
 		hit := -1
 		for k, a := range acc {
@@ -1199,6 +1281,9 @@ func runCounterCase(ctx *engine.Ctx, cc counterCase) {
 	}
 	ctx.Case(len(ops) >= 2, key.String())
 	ctx.Count("counter:extra-cases", 1)
+	if cc.also != "" {
+		ctx.Count("counter:two-margin-box-cases", 1)
+	}
 	if bad != "" {
 		ctx.Fail(engine.Failure{Clause: "page-counter", Features: cc.feats, Case: desc, Detail: bad + "\nall pages: " + key.String()})
 	}
@@ -1245,6 +1330,17 @@ func selfTest() {
 	g = cascadePage([]prule{baseRule, ruleMenu[4], ruleMenu[0]}, ptype{index: 0, first: true, side: "right", name: "n"}, 1)
 	must(g.mt == 7 && g.w == 80, "named beats :first")
 	must(!(psel{hasNth: true, a: 2, b: 1}).matches(ptype{index: 1}) && (psel{hasNth: true, a: 2, b: 1}).matches(ptype{index: 2}), "nth")
+	// :nth(-n+3) = the first three pages; :nth(-2n+5) = pages 5, 3, 1; :nth(n+5) = from the fifth; :nth(0) = none
+	nthSet := func(a, b int) string {
+		var l []string
+		for i := 0; i < 8; i++ {
+			if (psel{hasNth: true, a: a, b: b}).matches(ptype{index: i}) {
+				l = append(l, strconv.Itoa(i+1))
+			}
+		}
+		return strings.Join(l, ",")
+	}
+	must(nthSet(-1, 3) == "1,2,3" && nthSet(-2, 5) == "1,3,5" && nthSet(1, 5) == "5,6,7,8" && nthSet(0, 0) == "" && nthSet(3, -1) == "2,5,8" && nthSet(2, 0) == "2,4,6,8" && nthSet(-1, -1) == "", "nth with negative / zero step")
 	// page box: auto margins centre a fixed width
 	w, a, b := solveAxis(axisIn{cb: 100, inner: 50, mAAuto: true, mBAuto: true, maxInner: -1})
 	must(w == 50 && a == 25 && b == 25, "auto margins")
